@@ -158,7 +158,7 @@ class Gen:
         r = self.r
         ops = []
         w = dict(spawn=14, insert=26, remove=7, despawn=6, send=8, sendto=8, addh=11, rmh=3, addc=2, rmc=3,
-                 addge=1, addte=1, rmge=1, rmte=1, fuel=1, panicat=1)
+                 addge=1, addte=1, rmge=1, rmte=1, fuel=1, panicat=1, addgeu=0, addteu=0, addcu=0)
         if self.profile == 'structural':
             w.update(addh=3, send=2, sendto=2, insert=34, remove=12, despawn=8, rmc=5)
         elif self.profile == 'events':
@@ -166,7 +166,8 @@ class Gen:
         elif self.profile == 'panics':
             w.update(panicat=6, addh=16, send=12, sendto=12)
         elif self.profile == 'registry':
-            w.update(addh=26, rmh=8, addc=4, rmc=4, addge=3, addte=3, rmge=3, rmte=3, send=8, sendto=10, insert=18, spawn=12, remove=5, despawn=4, panicat=1, fuel=0)
+            w.update(addh=26, rmh=8, addc=4, rmc=4, addge=3, addte=3, rmge=4, rmte=4, send=8, sendto=10, insert=18, spawn=12, remove=5, despawn=4, panicat=1, fuel=0,
+                     addgeu=2, addteu=2, addcu=1)   # registrations without a TypeId (descriptor API): fresh model tag 1000+n each
         elif self.profile == 'cascade':
             w.update(rmc=9, addc=3, insert=30, spawn=9, send=16, sendto=4, remove=6, despawn=4, addh=6, rmh=1, addge=0, addte=1, rmge=0, rmte=1, panicat=1, fuel=0)
         elif self.profile == 'chains':
@@ -203,6 +204,9 @@ class Gen:
             elif op == 'rmc': ops.append('rmc %d' % r.randrange(0, 6))
             elif op == 'addge': ops.append('addge %d' % r.choice(RECV_G_TAGS))
             elif op == 'addte': ops.append('addte %d' % r.choice([0, 1, 2, 3, 10, 20, 21, 22, 23, 24, 25, 40, 41, 42]))
+            elif op in ('addgeu', 'addteu', 'addcu'):
+                self.untyped = getattr(self, 'untyped', 0) + 1
+                ops.append('%s %d' % (op, self.untyped))
             elif op == 'rmge': ops.append('rmge %d' % r.randrange(0, 6))
             elif op == 'rmte': ops.append('rmte %d' % r.randrange(0, 6))
             elif op == 'fuel': ops.append('fuel %d' % r.choice([0, 8, 32, 64, 128]))
